@@ -2,7 +2,7 @@
    every reachable store satisfies it. *)
 From Coq Require Import Sorting.Sorted.
 From Stam Require Import Base.Tac Base.ListAux Model.Offset Model.Store Model.StoreObs Spec.StoreSpec
-     Proofs.RelMap Proofs.StoreScan Proofs.StoreInv Proofs.StoreRemove.
+     Proofs.RelMap Proofs.StoreScan Proofs.StoreInv Proofs.StoreDataDef Proofs.StoreRemove.
 
 Lemma fuel_ok s c : length (anns s) - c < fuel_of s.
 Proof. unfold fuel_of. lia. Qed.
@@ -43,17 +43,50 @@ Proof.
   specialize (Hdead x (Hin x a Hs HP)). unfold get_ann in Hdead. congruence.
 Qed.
 
+Lemma Post_data_ok ex c s s' : Post ex c s s' -> data_ok s -> data_ok s'.
+Proof.
+  intros P Hok y a Ha dx Hdx. destruct (Hok y a (P_sub _ _ _ _ P y a Ha) dx Hdx) as (ds & it & G1 & G2).
+  exists ds, it. destruct (P_frame _ _ _ _ P) as (Es & _). unfold get_set in *. rewrite Es. tauto.
+Qed.
+
+Lemma data_ok_frame s s' : anns s' = anns s -> sets s' = sets s -> data_ok s -> data_ok s'.
+Proof.
+  intros Ea Es Hok y a Ha dx Hdx. unfold get_ann in Ha. rewrite Ea in Ha.
+  destruct (Hok y a Ha dx Hdx) as (ds & it & G1 & G2). exists ds, it. unfold get_set in *. rewrite Es. tauto.
+Qed.
+
+Lemma ann_refs_frame s s' : anns s' = anns s -> ann_refs_ok s -> ann_refs_ok s'.
+Proof.
+  intros E H y a Hy lf Hlf. unfold get_ann in *. rewrite E in *. apply (H y a Hy lf Hlf).
+Qed.
+
+Lemma Post_item_refs ex c s s' : Post ex c s s' -> item_refs_ok s -> item_refs_ok s'.
+Proof.
+  intros P H y a Hy lf Hlf. pose proof (H y a (P_sub _ _ _ _ P y a Hy) lf Hlf) as H0.
+  destruct (P_frame _ _ _ _ P) as (Es & Er & _).
+  destruct lf; cbn [item_ref_ok] in *; unfold get_res, get_set in *; rewrite ?Es, ?Er; exact H0.
+Qed.
+
+Lemma item_refs_frame s s' : anns s' = anns s -> sets s' = sets s -> ress s' = ress s -> item_refs_ok s -> item_refs_ok s'.
+Proof.
+  intros Ea Es Er H y a Hy lf Hlf. unfold get_ann in Hy. rewrite Ea in Hy. pose proof (H y a Hy lf Hlf) as H0.
+  destruct lf; cbn [item_ref_ok] in *; unfold get_res, get_set in *; rewrite ?Es, ?Er; exact H0.
+Qed.
+
 Lemma scan_member s P x : In x (scan s P) <-> exists a, get_ann s x = Some a /\ P a = true.
 Proof. rewrite scan_scanl. apply scanl_In. Qed.
 
 (** * remove_annotation *)
 Theorem rm_annotation_Inv ex s r : InvE ex s -> wf_targets s ->
-  InvE ex (fst (rm_annotation s r)) /\ wf_targets (fst (rm_annotation s r)).
+  InvE ex (fst (rm_annotation s r)) /\ wf_targets (fst (rm_annotation s r))
+  /\ (data_ok s -> data_ok (fst (rm_annotation s r)))
+  /\ (ann_refs_ok s -> ann_refs_ok (fst (rm_annotation s r)))
+  /\ (item_refs_ok s -> item_refs_ok (fst (rm_annotation s r))).
 Proof.
-  intros HI Hwf. unfold rm_annotation. destruct (ref_ann s r) as [h|]; [|split; assumption].
+  intros HI Hwf. unfold rm_annotation. destruct (ref_ann s r) as [h|]; [|split; [assumption|split; [assumption|tauto]]].
   pose proof (remove_ann_Post ex (fuel_of s) s h HI Hwf (fuel_ok s h)) as R.
   destruct (remove_ann (fuel_of s) s h) as [s' o]. destruct R as (P & _ & _). cbn [fst].
-  split; [exact (P_inv _ _ _ _ P)|exact (P_wf _ _ _ _ P)].
+  split; [exact (P_inv _ _ _ _ P)|split; [exact (P_wf _ _ _ _ P)|split; [apply (Post_data_ok _ _ _ _ P)|split; [apply (P_closed _ _ _ _ P)|apply (Post_item_refs _ _ _ _ P)]]]].
 Qed.
 
 (** * remove_resource *)
@@ -61,9 +94,12 @@ Lemma wf_frame s s' : anns s' = anns s -> wf_targets s -> wf_targets s'.
 Proof. intros E Hwf x a Ha. apply (Hwf x a). unfold get_ann in *. rewrite <- E. exact Ha. Qed.
 
 Theorem rm_resource_Inv ex s r : InvE ex s -> wf_targets s ->
-  InvE ex (fst (rm_resource s r)) /\ wf_targets (fst (rm_resource s r)).
+  InvE ex (fst (rm_resource s r)) /\ wf_targets (fst (rm_resource s r))
+  /\ (data_ok s -> data_ok (fst (rm_resource s r)))
+  /\ (ann_refs_ok s -> ann_refs_ok (fst (rm_resource s r)))
+  /\ (item_refs_ok s -> item_refs_ok (fst (rm_resource s r))).
 Proof.
-  intros HI Hwf. unfold rm_resource. destruct (ref_res s r) as [h|]; [|split; assumption].
+  intros HI Hwf. unfold rm_resource. destruct (ref_res s r) as [h|]; [|split; [assumption|split; [assumption|tauto]]].
   destruct (remove_anns_Post ex (rget (ramm s) h) s HI Hwf) as (P1 & D1).
   set (s1 := remove_anns s (rget (ramm s) h)) in *.
   destruct (remove_anns_Post ex (sort_dedup (concat (nth h (trm s1) []))) s1 (P_inv _ _ _ _ P1) (P_wf _ _ _ _ P1)) as (P2 & D2).
@@ -91,10 +127,40 @@ Proof.
     - rewrite rget_rclear. destruct (r0 =? h) eqn:E; [|apply H3].
       assert (r0 = h) by lia. subst r0. symmetry. apply Rm. }
   assert (Hwf3 : wf_targets s3) by (apply (wf_frame s2 s3); [reflexivity|exact (P_wf _ _ _ _ P2)]).
-  destruct (get_res s3 h) as [rs|]; cbn [fst]; [|split; assumption].
-  split.
+  assert (Hok3 : data_ok s -> data_ok s3).
+  { intros Hok. apply (data_ok_frame s2 s3); [reflexivity|reflexivity|]. apply (Post_data_ok _ _ _ _ P12 Hok). }
+  assert (Hrf3 : ann_refs_ok s -> ann_refs_ok s3).
+  { intros Hr. apply (ann_refs_frame s2 s3); [reflexivity|]. apply (P_closed _ _ _ _ P12 Hr). }
+  assert (Hit3 : item_refs_ok s -> item_refs_ok s3).
+  { intros Hr. apply (item_refs_frame s2 s3); [reflexivity|reflexivity|reflexivity|]. apply (Post_item_refs _ _ _ _ P12 Hr). }
+  destruct (get_res s3 h) as [rs|]; cbn [fst]; [|split; [assumption|split; [assumption|split; [assumption|split; assumption]]]].
+  split; [|split; [|split; [|split]]].
   - apply (Inv_same_core ex s3); [repeat split|exact HI3].
   - apply (wf_frame s3); [reflexivity|exact Hwf3].
+  - intros Hok. apply (data_ok_frame s3); [reflexivity|reflexivity|apply Hok3; exact Hok].
+  - intros Hr. apply (ann_refs_frame s3); [reflexivity|apply Hrf3; exact Hr].
+  - (* no surviving annotation names resource h any more; all other resources are untouched *)
+    intros Hr y a Hy lf Hlf.
+    assert (Hy2 : get_ann s2 y = Some a) by exact Hy.
+    pose proof (Hit3 Hr y a Hy2 lf Hlf) as H0.
+    assert (Hnot_ts : forall t, on_ts h t lf = true -> False).
+    { intros t Hon. assert (Hin : In y (scan s2 (has_leaf (on_ts h t)))).
+      { apply scan_member. exists a. split; [exact Hy2|]. unfold has_leaf. apply existsb_exists. exists lf. tauto. }
+      rewrite Rt in Hin. destruct Hin. }
+    assert (Hnot_rm : on_res_meta h lf = true -> False).
+    { intros Hon. assert (Hin : In y (scan s2 (has_leaf (on_res_meta h)))).
+      { apply scan_member. exists a. split; [exact Hy2|]. unfold has_leaf. apply existsb_exists. exists lf. tauto. }
+      rewrite Rm in Hin. destruct Hin. }
+    assert (Hres : forall r0, r0 <> h -> get_res (set_ress (set_ridx s3 (id_del (ridx s3) (r_id rs))) (set_slot (ress s3) h None)) r0 = get_res s3 r0).
+    { intros r0 Hne. unfold get_res. cbn [set_ress set_ridx ress]. rewrite slot_set_slot.
+      destruct (r0 =? h) eqn:E; [lia|reflexivity]. }
+    destruct lf; cbn [item_ref_ok] in *; try exact H0.
+    + destruct (Nat.eq_dec r0 h) as [->|Hne]; [exfalso; apply (Hnot_ts t); cbn [on_ts]; rewrite !Nat.eqb_refl; reflexivity|].
+      rewrite (Hres r0 Hne). exact H0.
+    + destruct (Nat.eq_dec r0 h) as [->|Hne]; [exfalso; apply (Hnot_ts t); cbn [on_ts]; rewrite !Nat.eqb_refl; reflexivity|].
+      rewrite (Hres r0 Hne). exact H0.
+    + destruct (Nat.eq_dec r0 h) as [->|Hne]; [exfalso; apply Hnot_rm; cbn [on_res_meta]; rewrite Nat.eqb_refl; reflexivity|].
+      rewrite (Hres r0 Hne). exact H0.
 Qed.
 
 (** * remove_dataset *)
@@ -107,9 +173,12 @@ Proof.
 Qed.
 
 Theorem rm_dataset_Inv ex s r : InvE ex s -> wf_targets s ->
-  InvE ex (fst (rm_dataset s r)) /\ wf_targets (fst (rm_dataset s r)).
+  InvE ex (fst (rm_dataset s r)) /\ wf_targets (fst (rm_dataset s r))
+  /\ (data_ok s -> data_ok (fst (rm_dataset s r)))
+  /\ (ann_refs_ok s -> ann_refs_ok (fst (rm_dataset s r)))
+  /\ (item_refs_ok s -> item_refs_ok (fst (rm_dataset s r))).
 Proof.
-  intros HI Hwf. unfold rm_dataset. destruct (ref_set s r) as [h|]; [|split; assumption].
+  intros HI Hwf. unfold rm_dataset. destruct (ref_set s r) as [h|]; [|split; [assumption|split; [assumption|tauto]]].
   set (users := filter _ (live_handles (anns s))).
   destruct (remove_anns_Post ex users s HI Hwf) as (P1 & D1).
   set (s1 := remove_anns s users) in *.
@@ -167,10 +236,61 @@ Proof.
     - rewrite tget_tclear. destruct (d =? h) eqn:E; [|apply H6]. assert (d = h) by lia. subst d. symmetry. apply Rd.
     - rewrite tget_tclear. destruct (d =? h) eqn:E; [|apply H7; assumption]. assert (d = h) by lia. subst d. symmetry. apply Ru. }
   assert (Hwf5 : wf_targets s5) by (apply (wf_frame s4 s5); [reflexivity|exact (P_wf _ _ _ _ P4)]).
-  destruct (get_set s5 h) as [ds|]; cbn [fst]; [|split; assumption].
-  split.
+  assert (Hsets5 : sets s5 = sets s).
+  { destruct (P_frame _ _ _ _ P1) as (A1&_). destruct (P_frame _ _ _ _ P2) as (A2&_). destruct (P_frame _ _ _ _ P4) as (A4&_).
+    unfold s5. cbn [set_ddam set_damm set_kamm sets]. rewrite A4. unfold s3. cbn [set_samm sets]. congruence. }
+  assert (Hno : forall y a dx, get_ann s4 y = Some a -> In dx (a_data a) -> fst dx <> h).
+  { intros y a dx Ha Hdx Heq.
+    assert (Hy : In y (scan s4 (uses_data h (snd dx)))).
+    { apply scan_member. exists a. split; [exact Ha|]. unfold uses_data. apply existsb_exists. exists dx.
+      split; [exact Hdx|]. rewrite Heq, !Nat.eqb_refl. reflexivity. }
+    rewrite Ru in Hy. destruct Hy. }
+  assert (Hrf5 : ann_refs_ok s -> ann_refs_ok s5).
+  { intros Hr. apply (ann_refs_frame s4 s5); [reflexivity|]. apply (P_closed _ _ _ _ P4).
+    apply (ann_refs_frame s2 s3); [reflexivity|]. apply (P_closed _ _ _ _ P2). apply (P_closed _ _ _ _ P1 Hr). }
+  assert (Hress5 : ress s5 = ress s).
+  { destruct (P_frame _ _ _ _ P1) as (_&A1&_). destruct (P_frame _ _ _ _ P2) as (_&A2&_). destruct (P_frame _ _ _ _ P4) as (_&A4&_).
+    unfold s5. cbn [set_ddam set_damm set_kamm ress]. rewrite A4. unfold s3. cbn [set_samm ress]. congruence. }
+  assert (Hit5 : item_refs_ok s -> item_refs_ok s5).
+  { intros Hr y a Hy lf Hlf. assert (Hy4 : get_ann s4 y = Some a) by exact Hy.
+    pose proof (Hr y a (Psub y a Hy4) lf Hlf) as H0.
+    destruct lf; cbn [item_ref_ok] in *; unfold get_res, get_set in *; rewrite ?Hsets5, ?Hress5; exact H0. }
+  destruct (get_set s5 h) as [ds|] eqn:Eg5; cbn [fst].
+  2:{ split; [exact HI5|]. split; [exact Hwf5|]. split; [|split; [exact Hrf5|exact Hit5]]. intros Hok y a Ha dx Hdx.
+      destruct (Hok y a (Psub y a Ha) dx Hdx) as (ds0 & it & G1 & G2).
+      exists ds0, it. unfold get_set in *. rewrite Hsets5. tauto. }
+  split; [|split; [|split; [|split]]]; [| | |intros Hr; apply (ann_refs_frame s5); [reflexivity|apply Hrf5; exact Hr]|].
+  4:{ (* no surviving annotation names the set, one of its keys or one of its data items *)
+    intros Hr y a Hy lf Hlf. assert (Hy4 : get_ann s4 y = Some a) by exact Hy.
+    pose proof (Hit5 Hr y a Hy4 lf Hlf) as H0.
+    assert (Hy2 : get_ann s2 y = Some a) by (apply (P_sub _ _ _ _ P4 y a Hy4)).
+    assert (Hkill : forall P, scan s4 (has_leaf P) = [] -> P lf = true -> False).
+    { intros P HP Hon. assert (Hin : In y (scan s4 (has_leaf P))).
+      { apply scan_member. exists a. split; [exact Hy4|]. unfold has_leaf. apply existsb_exists. exists lf. tauto. }
+      rewrite HP in Hin. destruct Hin. }
+    assert (Hkill2 : on_set h lf = true -> False).
+    { intros Hon. assert (Hin : In y (scan s2 (has_leaf (on_set h)))).
+      { apply scan_member. exists a. split; [exact Hy2|]. unfold has_leaf. apply existsb_exists. exists lf. tauto. }
+      rewrite Rs in Hin. destruct Hin. }
+    assert (Hset : forall d0, d0 <> h -> get_set (set_sets (set_sidx s5 (id_del (sidx s5) (d_id ds))) (set_slot (sets s5) h None)) d0 = get_set s5 d0).
+    { intros d0 Hne. unfold get_set. cbn [set_sets set_sidx sets]. rewrite slot_set_slot.
+      destruct (d0 =? h) eqn:E; [lia|reflexivity]. }
+    destruct lf; cbn [item_ref_ok] in *; try exact H0.
+    + destruct (Nat.eq_dec d h) as [->|Hne]; [exfalso; apply Hkill2; cbn [on_set]; rewrite Nat.eqb_refl; reflexivity|].
+      rewrite (Hset d Hne). exact H0.
+    + destruct (Nat.eq_dec d h) as [->|Hne]; [exfalso; apply (Hkill _ (Rk k)); cbn [on_key]; rewrite !Nat.eqb_refl; reflexivity|].
+      rewrite (Hset d Hne). exact H0.
+    + destruct (Nat.eq_dec d h) as [->|Hne]; [exfalso; apply (Hkill _ (Rd x)); cbn [on_data]; rewrite !Nat.eqb_refl; reflexivity|].
+      rewrite (Hset d Hne). exact H0. }
   - apply (Inv_same_core ex s5); [repeat split|exact HI5].
   - apply (wf_frame s5); [reflexivity|exact Hwf5].
+  - intros Hok y a Ha dx Hdx.
+    assert (Ha4 : get_ann s4 y = Some a) by exact Ha.
+    destruct (Hok y a (Psub y a Ha4) dx Hdx) as (ds0 & it & G1 & G2).
+    exists ds0, it. split; [|exact G2]. unfold get_set in *. cbn [set_sets set_sidx sets].
+    rewrite Hsets5, slot_set_slot.
+    destruct (fst dx =? h) eqn:E; cbn [andb]; [|exact G1].
+    exfalso. apply (Hno y a dx Ha4 Hdx). lia.
 Qed.
 
 (** * annotate keeps "targets are older" *)
